@@ -19,6 +19,7 @@ FAMILIES = {
     "floodBs": {"quick": 50, "thorough": 1500},     # hostile scripted client floods a real server with small limits (rapid reset, refused streams, tiny/empty DATA, CONTINUATION, PING/SETTINGS, stream errors, oversize lists), slow / non-accepting application, blocked writes; dense statistics
     "floodBc": {"quick": 50, "thorough": 1500},     # hostile scripted server floods a real client (PUSH_PROMISE, 1xx, tiny/empty DATA, PING/SETTINGS, CONTINUATION, promise+reset)
     "conformSend": {"quick": 40, "thorough": 1500},
+    "conformStreams": {"quick": 150, "thorough": 3000},  # TLC simulation runs of MC_Streams (stream store / counters, server role) replayed on the real server
     "conformRecv": {"quick": 80, "thorough": 3000},  # TLC simulation runs of MC_Recv replayed on the real server (byte-exact)  # TLC simulation runs of MC_Send (x ~3 behaviours each) replayed on the real client
 }
 
@@ -32,6 +33,10 @@ RECV_SLICE = {"module": "MC_Recv", "cfg_quick": "MC_Recv_quick.cfg", "cfg_thorou
               "constants": "2 streams, IW=6 CW=8, DATA {0,1,6} x padding {0,1} x END_STREAM, release {1,2}, 1 handle drop, 1 reset either side, target {6,10}, SETTINGS {1,8} applied at the peer's ACK; legal peer; leak rules at every quiescent state",
               "timeout_thorough": 3000, "coverage": False, "workers": 8}
 
+STREAMS_SLICE = {"module": "MC_Streams", "cfg_quick": "MC_Streams_quick.cfg", "cfg_thorough": "MC_Streams_thorough.cfg",
+                 "constants": "2 remote streams, MaxConc=ResetMax=PendingAcceptResetMax=ErrorResetMax=1, 2 extra peer frames (HEADERS/malformed HEADERS/DATA/RST_STREAM), every order of accept / send_response / send_data / send_reset / handle drops / pop_frame (writes may be delayed arbitrarily) / reset expiry / EOF / connection drop",
+                 "timeout_quick": 900, "timeout_thorough": 3000, "coverage": False, "workers": 6}
+
 PLAN = {
     "C01": {"rules": ["C01."], "families": WIRE_AB, "slices": [], "level": "exploration",
             "must_hit": ["C01.head", "C01.data", "C01.clean_end", "C01.trailers", "C01.info", "C01.push"]},
@@ -41,7 +46,7 @@ PLAN = {
             "must_hit": ["C03.conn_overcredit", "C03.stream_overcredit"]},
     "C04": {"rules": ["C04."], "families": WIRE_AB, "slices": [], "level": "exploration",
             "must_hit": ["C04.stream_kind", "C04.id_order", "C04.after_es", "C04.data_state", "C04.contiguous"]},
-    "C05": {"rules": ["C05."], "families": WIRE_AB, "slices": [], "level": "exploration",
+    "C05": {"rules": ["C05."], "families": WIRE_AB + ["conformStreams"], "slices": [STREAMS_SLICE], "level": "model_checking",
             "must_hit": ["C05.send_limit"]},
     "C06": {"rules": ["C06."], "families": ["mixA", "mixAd", "bpReset"], "slices": [], "level": "exploration", "must_hit": ["C06.progress"]},
     "C07": {"rules": ["C07."], "families": WIRE_AB, "slices": [], "level": "fault_enumeration", "must_hit": ["C07.resolved"]},
@@ -55,9 +60,9 @@ PLAN = {
             "must_hit": ["C14.settings_ack", "C14.pong", "C14.all_acked"]},
     "C15": {"rules": ["C15."], "families": WIRE_AB, "slices": [], "level": "exploration", "must_hit": []},
     "C16": {"rules": ["C16."], "families": WIRE_AB + ["conformSend"], "slices": [SEND_SLICE], "level": "model_checking", "must_hit": ["C16.nonzero", "C16.stream_bound"]},
-    "C18": {"rules": ["C18."], "families": WIRE_AB, "slices": [], "level": "exploration",
+    "C18": {"rules": ["C18."], "families": WIRE_AB + ["conformStreams"], "slices": [STREAMS_SLICE], "level": "model_checking",
             "must_hit": ["C18.store_bound", "C18.recv_buffer_bound", "C18.send_buffer_bound", "C18.quota_counters", "C18.continuation_bound", "C18.owed_replies_bound"]},
-    "C19": {"rules": ["C19."], "families": WIRE_AB, "slices": [], "level": "exploration",
+    "C19": {"rules": ["C19."], "families": WIRE_AB + ["conformStreams"], "slices": [STREAMS_SLICE], "level": "model_checking",
             "must_hit": ["C19.forgotten", "C19.counts_idle", "C19.flow_idle", "C19.idle_close", "C19.no_premature_close"]},
     "C17": {"rules": ["C17."], "families": WIRE_AB, "slices": [], "level": "exploration", "must_hit": ["C17.single_rst"]},
 }
